@@ -29,13 +29,26 @@ PROP = 'C18'
 LEVEL = 'translation_validation'
 PROPS_MODULES = ['RTV.Props.C18']
 GEN = ['chartables']
-REQUIRED_THEOREMS = ['sanitize_fstring_roundtrip', 'create_entry_roundtrip']   # extended below once proved
+REQUIRED_THEOREMS = ['sanitize_fstring_roundtrip', 'create_entry_roundtrip', 'nested_regex_faithful', 'simple_regex_faithful',
+                     'params_regex_faithful', 'dict_entry_faithful', 'dictionary_faithful', 'list_entry_raw',
+                     'default_writer_faithful', 'default_writer_value', 'bool_writer_faithful', 'regex_definition_faithful',
+                     'nested_regex_duplicate_reference', 'nested_regex_invalid_name', 'default_writer_brace_doubled',
+                     'dict_list_astral_not_faithful', 'list_entry_trailing_backslash', 'list_faithful', 'block_single_line',
+                     'block_line_separator_breaks']
 RULE = ('every configFiles entry of the five resource-definitions.json (exhaustive); a definition is non-trivial when it '
         'exists in the regenerated or the checked-in module; compared as source text per definition and as evaluated '
-        'attribute values of the resource class')
+        'attribute values of the resource class; every definition additionally goes through the Lean reference emitter '
+        '(text byte-identical to code_writer, module text byte-identical to generate) and the Lean evaluator (value equal to '
+        'the imported attribute); synthetic definitions of every kind and generated literals tie the evaluator to CPython')
 ASSUMPTIONS = ['ruamel.yaml is replaced by harness/shims/ruamel (vendored PyYAML 6.0.3 + YAML 1.2 core-schema resolvers)',
-               'the generator under test is the repository\'s own resource-generator/lib (run in-process)']
-EXPLANATION = 'finite artefact equality: exhaustive comparison; Lean proves the escaping functions of the emitter faithful'
+               'the generator under test is the repository\'s own resource-generator/lib (run in-process)',
+               'the parsed YAML (yaml_parser objects) is the input of the Lean emitter: YAML reading itself is not modelled',
+               'values of imported base classes (BaseNumbers.X, …) are the Lean-evaluated values of the module named by the '
+               'header import line (the import statement itself is interpreted by the harness)',
+               'float literals of dictionary values: Lean yields the exact decimal, compared with the module value through '
+               'correctly rounded Fraction -> float']
+EXPLANATION = ('finite artefact equality: exhaustive comparison; Lean supplies a reference emitter for every writer (byte-identical '
+               'on every definition) and proves that the emitted text evaluates back to the YAML definition')
 PACKAGES = ['recognizers-number', 'recognizers-number-with-unit', 'recognizers-date-time', 'recognizers-sequence',
             'recognizers-choice']
 DEF_RE = re.compile(r'^    (?:def )?([A-Za-z_][A-Za-z0-9_]*)(?: = |\()')
@@ -362,8 +375,201 @@ def emitter_correspondence(ctx, yp, code_writer, bcg, jobs):
                                  'reports': dict(reports)}
 
 
-def evaluator_units(ctx, code_writer):
-    pass
+def py_eval(src, env):
+    """value of a Python expression / ('x',) if Python rejects it"""
+    try:
+        return ('s', eval(src, dict(env)))
+    except BaseException:
+        return ('x',)
+
+
+def evaluator_units(ctx, code_writer, yp, bcg):
+    """Unit correspondence of the Lean evaluator and of the `subst` specification against CPython and the real
+    `sanitize`, on generated strings (boundary pieces first), plus synthetic definitions of every kind pushed through
+    the repository's writers / generate and the Lean emitter + evaluator (text and value)."""
+    import types as _t
+    r = ctx.rng('evaluator')
+    n = 2500 if ctx.thorough else 500
+    env = {'A': 'X{', 'AB': "y'\\", 'B': _t.SimpleNamespace(C='z"}')}
+    lean_env = [('A', env['A']), ('AB', env['AB']), ('B.C', env['B'].C)]
+    envf = [str(len(lean_env))] + [x for k, v in lean_env for x in (cps(k), cps(v))]
+    exact = ['a', 'Z', '0', ' ', 'é', '中', '😀', '"', '{{', '}}', '{A}', '{AB}', '{B.C}', '\\\\', "\\'", '\\"', '\\n', '\\t', '\\r',
+             '\\b', '\\f', '\\u00e9', '\\u4E2d', '\\d', '\\s', '\\.', '}', '{C}', '(', '|', '\x7f', '\t']
+    wild = exact + ['{', "'", '\\a', '\\x41', '\\N', '\\0', '\\U', '{ A }', '{A!r}', '{A:>3}', '{}', '\\{', '\n', '\r', '\\u12', '\\']
+    lines, expect, mode = [], [], []
+    for i in range(n):
+        pool, m = (exact, 'exact') if i % 2 == 0 else (wild, 'wild')
+        body = ''.join(r.choice(pool) for _ in range(r.randint(0, 9)))
+        lines.append('\t'.join(['rg.evalf', cps(body)] + envf)); expect.append(py_eval("f'" + body + "'", env)); mode.append(m)
+        lines.append('rg.evalsq\t' + cps(body)); expect.append(py_eval("'" + body + "'", env)); mode.append(m)
+        raw = ''.join(r.choice(['a', ' ', '\\', "\\'", '\\\\', '"', '{', 'é', "'", '\n']) for _ in range(r.randint(0, 7)))
+        lines.append('rg.evalraw\t' + cps(raw)); expect.append(py_eval("r'" + raw + "'", env)); mode.append('wild')
+        s0 = ''.join(r.choice(['a', 'b\r\nc', '\n', '\r', '\x0b', '\x0c', '\x1c', '\x1d', '\x1e', '\x85', ' ', ' ', ' ', 'é',
+                               '\r\n', '\n\r']) for _ in range(r.randint(0, 8)))
+        lines.append('rg.split\t' + cps(s0)); expect.append(('l', s0.splitlines())); mode.append('exact')
+    # subst (the specification of the theorems) against the real sanitize + CPython's f-string evaluation
+    dpieces = ['a', '{A}', '{AB}', '{B.C}', '{{A}}', '{C}', '{2}', '{1,3}', '{', '}', "'", '"', '\\', '\\d', '\n', 'é', '{A', 'A}', '{{', '}}}']
+    refsets = [[], ['A'], ['AB', 'A'], ['A', 'AB', 'B.C'], ['B.C'], ['C'], ['A', 'A'], ['A!r'], ['A', 'AB', 'A']]
+    for i in range(n):
+        d = ''.join(r.choice(dpieces) for _ in range(r.randint(0, 8)))
+        refs = r.choice(refsets)
+        lines.append('\t'.join(['sanitizet', cps(d)] + [cps(x) for x in refs]))
+        expect.append(('s', code_writer.sanitize(d, None, refs))); mode.append('exact')
+        if len(set(refs)) == len(refs) and all(re.fullmatch(r'[A-Za-z_]\w*(\.[A-Za-z_]\w*)*', x) for x in refs):
+            # hypotheses of nested_regex_faithful hold: the real generator + CPython must agree with `subst`
+            lines.append('\t'.join(['rg.subst', cps(d), str(len(refs))] + [cps(x) for x in refs] + envf))
+            expect.append(py_eval("f'" + code_writer.sanitize(d, None, refs) + "'", env)); mode.append('exact')
+    answers = common.driver(lines)
+    outside = 0
+    for l, a, e, m in zip(lines, answers, expect, mode):
+        op = l.split('\t')[0]
+        ctx.count('unit:' + op)
+        if op == 'rg.split':
+            f = a.split('\t')
+            got = ('l', [common.uncps(x) for x in f[1:]])
+        else:
+            got = ('x',) if a == 'none' else ('s', common.uncps(a))
+        if got == e:
+            continue
+        if m == 'wild' and got == ('x',):
+            outside += 1          # outside the modelled fragment: the model may decline, it may not be wrong
+            continue
+        ctx.report('correspondence', 'unit:' + op, '%s: model %r, CPython/implementation %r' % (op, got, e),
+                   failing_input={'op': op, 'fields': [common.uncps(x) if re.fullmatch(r'[\d ]+|-', x) else x
+                                                       for x in l.split('\t')[1:4]]}, property_fails=False)
+    ctx.extra['evaluator_outside_fragment'] = outside
+
+    # ---- synthetic definitions of every kind through the real writers / generate and the Lean emitter + evaluator
+    chars = ['a', 'B', '7', ' ', '{', '}', "'", '"', '\\', '\n', '\t', '\r', '\x0b', '\x85', ' ', 'é', '中', '😀', '\x7f', '\x01', '(', '|',
+             ',', ')', ']', '{A}', '{AB}', '{B.C}', '{p}', '{q}', "\\'", '\\\\']
+
+    def rs(lo=0, hi=8):
+        return ''.join(r.choice(chars) for _ in range(r.randint(lo, hi)))
+
+    def node(v):
+        return _t.SimpleNamespace(value=v)
+
+    def make(kind):
+        if kind == 'S':
+            return yp.SimpleRegex(rs())
+        if kind == 'N':
+            return yp.NestedRegex(rs(), r.choice([[], ['A'], ['A', 'AB'], ['B.C', 'A'], ['A', 'A'], ['C']]))
+        if kind == 'P':
+            return yp.ParamsRegex(rs(), r.choice([[], ['p'], ['p', 'q']]))
+        if kind == 'D':
+            kt = r.choice(['string', 'char', 'string', 'int', 'bool'])
+            vt = r.choice(['string', 'char', 'int', 'long', 'double', 'bool', 'string[]'])
+            ent = {}
+            for _ in range(r.randint(0, 4)):
+                k = rs(0, 4) if kt in ('string', 'char', 'bool') else str(r.randint(0, 50))
+                if vt == 'string[]' or r.random() < 0.15:
+                    ent[k] = [node(rs(0, 4)) for _ in range(r.randint(0, 3))]
+                elif vt in ('string', 'char', 'bool'):
+                    ent[k] = rs(0, 5)
+                else:
+                    ent[k] = r.choice(['0', '7', '-3', '1.5', '-0.25', '12', '007', '1e3', '00', '3.'])
+            return yp.Dictionary(kt, vt, ent)
+        if kind == 'L':
+            return yp.List(r.choice(['string', 'char', 'string', 'int']), [rs(0, 5) for _ in range(r.randint(0, 4))])
+        if kind == 'A':
+            return [rs(0, 5) for _ in range(r.randint(0, 4))]
+        if kind == 'B':
+            return r.random() < 0.5
+        if kind == 'I':
+            return r.choice([0, 7, -12, 1500, 10 ** 12])
+        return rs()
+
+    real_parse = bcg.parse
+    scratch = os.path.join(common.VERIF, '.scratch', 'c18u-%d' % os.getpid())
+    os.makedirs(scratch, exist_ok=True)
+    some_yaml = os.path.join(scratch, 'empty.yaml')
+    open(some_yaml, 'w').close()
+    cases = []
+    try:
+        nsyn = 1500 if ctx.thorough else 400
+        fixed = [('T', '{'), ('T', "it's {x}"), ('D', yp.Dictionary('string', 'string[]', {'k': [node('😀')]})),
+                 ('L', yp.List('string', ['a\\'])), ('L', yp.List('string', ["\\'a"])), ('L', yp.List('string', ["o'clock"])),
+                 ('N', yp.NestedRegex('{A}', ['A', 'A'])), ('D', yp.Dictionary('string', 'string', {})),
+                 ('L', yp.List('string', [])), ('P', yp.ParamsRegex('(?={p})x{2}', ['p'])),
+                 ('S', yp.SimpleRegex('a b')), ('D', yp.Dictionary('string', 'string', {'a\nb': 'c'}))]
+        for i in range(nsyn):
+            kind, tok = fixed[i] if i < len(fixed) else (None, None)
+            if kind is None:
+                kind = r.choice('SSNNNPDDDLLABIT')
+                tok = make(kind)
+            name = 'D%d' % i
+            root = {name: tok}
+            bcg.parse = lambda f, root=root: root
+            out = os.path.join(scratch, 'm.py')
+            bcg.generate(some_yaml, out, 'class _C:', '')
+            text = open(out, encoding='utf-8').read()
+            impl_text = code_writer.generate_code(root)[0].write()
+            args = [r.choice(['\\D|\\b', '', '{', "'", 'x']) for _ in range(len(tok.params))] if kind == 'P' else []
+            _k, fields = encode_definition(name, tok, yp, lambda n, args=args: args)
+            ns = dict(env)
+            try:
+                exec(compile(text, 'synthetic', 'exec'), ns)
+                pv = vars(ns['_C'])[name]
+                if kind == 'P':
+                    pv = pv(*args)
+                pyv = ('ok', pv)
+            except BaseException as e:
+                pyv = ('x', type(e).__name__)
+            cases.append((kind, name, tok, fields, impl_text, text, pyv, args))
+    finally:
+        bcg.parse = real_parse
+        import shutil
+        shutil.rmtree(scratch, ignore_errors=True)
+    lines = []
+    for kind, name, tok, fields, impl_text, text, pyv, args in cases:
+        lines.append('\t'.join(['rg.mod', cps(bcg.HEADER_COMMENT), cps('class _C:'), '-'] + envf + ['1'] + fields))
+    answers = common.driver(lines)
+    declined = 0
+    for (kind, name, tok, fields, impl_text, text, pyv, args), ans in zip(cases, answers):
+        fs = Fields(ans.split('\t'))
+        lean_text = common.uncps(fs.take())
+        lv = fs.val()
+        lean_file = common.uncps(fs.take())
+        ctx.count('synthetic:' + kind)
+        ctx.nontriv(('synthetic', impl_text))
+        shown = {'kind': kind, 'definition': impl_text[:300], 'args': args}
+        if lean_text != impl_text:
+            ctx.report('correspondence', 'synthetic-emit:' + kind, 'Lean emitter and code_writer disagree on a synthetic %s definition' % kind,
+                       failing_input=dict(shown, model=lean_text[:300]), property_fails=False)
+            continue
+        if lean_file != text:
+            ctx.report('correspondence', 'synthetic-assemble:' + kind, 'Lean assemble and generate disagree on a synthetic %s definition' % kind,
+                       failing_input=dict(shown, model=lean_file[-300:], implementation=text[-300:]), property_fails=False)
+            continue
+        if kind == 'P':
+            lv = lv[1] if lv[0] == 'f' else lv
+        if lv == ('x',):
+            if pyv[0] == 'x':
+                continue
+            declined += 1
+            # the evaluator may decline only what it documents as outside its fragment: unquoted keys/values that are
+            # not numbers or booleans are kept as text (tag 'o'), never declined; so a decline on valid Python is a gap
+            ctx.report('correspondence', 'synthetic-declined:' + kind,
+                       'the Lean evaluator rejects a definition that CPython evaluates', failing_input=dict(shown, python=repr(pyv[1])[:200]),
+                       property_fails=False)
+            continue
+        if pyv[0] == 'x':
+            ok = lv[0] == 'd' and any(k[0] == 'o' or v[0] == 'o' for k, v in lv[1])   # e.g. `007`: text the model does not judge
+            if not ok:
+                ctx.report('correspondence', 'synthetic-value:' + kind, 'the Lean evaluator accepts a definition CPython rejects (%s)' % pyv[1],
+                           failing_input=dict(shown, model=repr(lv)[:200]), property_fails=False)
+            continue
+        if kind == 'D':
+            if any(k[0] == 'o' or v[0] == 'o' for k, v in lv[1]) if lv[0] == 'd' else False:
+                continue
+            ok = lv[0] == 'd' and same_dict(lv[1], pyv[1])
+        else:
+            ok = same_value(lv, pyv[1])
+        if not ok:
+            ctx.report('correspondence', 'synthetic-value:' + kind, 'Lean evaluation and CPython disagree on the value of a synthetic %s definition' % kind,
+                       failing_input=dict(shown, model=repr(lv)[:200], python=repr(pyv[1])[:200]), property_fails=False)
+    ctx.extra['synthetic_definitions'] = len(cases)
+
 
 
 def correspond(ctx):
@@ -479,7 +685,7 @@ def correspond(ctx):
 
     # ---- the Lean reference emitter + evaluator on every definition of every module (exhaustive)
     emitter_correspondence(ctx, yaml_parser, code_writer, bcg, jobs)
-    evaluator_units(ctx, code_writer)
+    evaluator_units(ctx, code_writer, yaml_parser, bcg)
 
     # ---- unit correspondence of the Lean emitter model against lib/code_writer.py
     r = ctx.rng('sanitize')
